@@ -72,8 +72,11 @@ pub struct CaseA {
     pub list: ListSel,
 }
 
+/// credential ids of varying length (1..=255 bytes, incl. lengths an authenticator of this library never mints)
 fn cred_id(k: usize) -> Vec<u8> {
-    format!("c05-credential-{k:04}").into_bytes()
+    const LENS: [usize; 12] = [19, 8, 100, 16, 64, 15, 65, 32, 5, 255, 17, 63];
+    let base = format!("{k:04}-c05-credential-{}", "x".repeat(240));
+    base.as_bytes()[..LENS[k % LENS.len()]].to_vec()
 }
 
 fn build(contents: &[CredDesc]) -> Vec<Passkey> {
@@ -115,7 +118,7 @@ fn run_a<S: StoreAccess>(ctx: &mut Ctx, mut store: S, c: &CaseA, ref_handle: Opt
     let before = store.snapshot();
     let rp = RPS[c.rp % RPS.len()];
     let ids = list_ids(&c.list, creds.len());
-    let descriptors = ids.as_ref().map(|l| l.iter().map(|(i, t)| cer::descriptor_ty(i, *t)).collect::<Vec<_>>());
+    let descriptors = ids.as_ref().map(|l| l.iter().enumerate().map(|(n, (i, t))| cer::descriptor_full(i, *t, (i.len() + n) as u8)).collect::<Vec<_>>());
     let named: Option<Vec<Vec<u8>>> = ids.as_ref().filter(|l| !l.is_empty()).map(|l| l.iter().map(|(i, _)| i.clone()).collect());
     let uv = ScriptedUv::new(UvScript::verified());
     let mut auth = cer::build_authenticator(store, uv, &AuthCfg::default());
@@ -218,14 +221,14 @@ fn run_a<S: StoreAccess>(ctx: &mut Ctx, mut store: S, c: &CaseA, ref_handle: Opt
                 }
                 if let Some(n) = &named {
                     if !n.contains(&used) {
-                        return Err(format!("assertion made with credential {} which the non-empty allow list does not name", String::from_utf8_lossy(&used)));
+                        return Err(format!("assertion made with credential {} which the non-empty allow list does not name", String::from_utf8_lossy(&used[..used.len().min(24)])));
                     }
                 }
                 // first credential the store lists (reference store: insertion order)
                 if ref_handle.is_some() {
                     let first = eligible.first().map(|p| p.credential_id.to_vec());
                     if Some(&used) != first.as_ref() {
-                        return Err(format!("credential {} was used, the first one the store lists for the query is {:?}", String::from_utf8_lossy(&used), first.map(|f| String::from_utf8_lossy(&f).to_string())));
+                        return Err(format!("credential {} was used, the first one the store lists for the query is {:?}", String::from_utf8_lossy(&used[..used.len().min(24)]), first.map(|f| String::from_utf8_lossy(&f).to_string())));
                     }
                 }
             }
